@@ -235,6 +235,9 @@ def selection(tier):
         g = random_accepted(rng, "ra%d" % i)
         acc.append(G.render(g))
         texts.append((g["name"], acc[-1], "random"))
+    # every tiny grammar (a lone option / loop / empty paren as the whole start rule, ...)
+    for g in p1.enumerated(3 if tier == "quick" else 4):
+        texts.append((g["name"], G.render(g), "enumerated"))
     for g in p1.pred_family() + p1.pratt_family(rng, 40 if tier == "quick" else 400) + p1.eps_family(3 if tier == "quick" else 4):
         texts.append((g["name"], G.render(g), "family"))
     for nm, t in rejected_variants(rng, acc[: (70 if tier == "quick" else 600)]):
